@@ -61,9 +61,10 @@ let handle kind c =
         if show_res rs <> impl then begin
           let cls = match op with
             | OWrite _ -> "write-outcome"
-            | ORead _ ->
-              if deviating !sp op then "read-absent-colliding"
-              else (match rs with RR (ROk _) -> "write-read" | _ -> "read-absent")
+            | ORead n ->
+              (match rs with
+               | RR (ROk _) -> "write-read"
+               | _ -> if collides (components n) !sp then "read-absent-colliding" else "read-absent")
             | OList _ -> if deviating !sp op then "list-below-non-utf8-dir" else "list-exact" in
           prop cls (Printf.sprintf "op %d %s: property expects %s, bucket answered %s" !i (show_op op) (show_res rs) impl)
         end;
